@@ -97,6 +97,21 @@ def BG.sem (P : Par2 α) (g : BG) : MGate α :=
 
 end sem
 
+/-! ## models/qft.py :: _DistributedQFT (the branch `QFT(n, accelerators=…)`) -/
+
+/-- step `i1` of `_DistributedQFT`: in the first half (`i1 < ⌈n/2⌉`) the ladder of the plain QFT;
+in the second half `SWAP(i1, n-1-i1)` first and then the ladder on the partner qubit
+`i1eff = n-1-i1`, still with the angles `π/2^(i2-i1)` and the controls `i2 > i1`. -/
+def qftDistStep (n i1 : Nat) : List GD :=
+  let icrit := n / 2 + n % 2
+  let eff := if i1 < icrit then i1 else n - i1 - 1
+  (if i1 < icrit then [] else [({ kind := .SWAP, q0 := i1, q1 := eff } : GD)]) ++
+    ({ kind := .H, q0 := eff } : GD) ::
+      (List.range (n - i1 - 1)).map (fun d => { kind := .CU1, q0 := i1 + 1 + d, q1 := eff, e := d + 1 })
+
+/-- queue of `QFT(n, accelerators=…)` (no final swaps: they are interleaved). -/
+def qftDist (n : Nat) : List GD := (List.range n).flatMap (qftDistStep n)
+
 /-! ## phase_encoder -/
 
 /-- `gate(qubit, data[qubit])` for every qubit; `rot` is RX, RY or RZ. -/
